@@ -29,7 +29,7 @@ def Comps.logged (C : Comps α S E P) : Comps α (S × List Nat) (E × List Nat)
     fxStep := fun e buf dt info =>
       (((C.fxStep e.1 buf dt info).1, e.2 ++ [buf.length]), (C.fxStep e.1 buf dt info).2)
     fxStart := fun e => (C.fxStart e.1, e.2)
-    spStep := C.spStep, spInfo := C.spInfo }
+    spStep := C.spStep, spInfo := C.spInfo, spStart := C.spStart }
 
 theorem Comps.logged_erase_snd (C : Comps α S E P) (s : S × List Nat) (buf : List (Frame α)) (dt : α) (info : Info α) :
     ((C.logged.sndStep s buf dt info).1.1, (C.logged.sndStep s buf dt info).2) = C.sndStep s.1 buf dt info := rfl
@@ -132,7 +132,7 @@ theorem new_ok (fuel ibs sr : Nat) (hibs : 1 ≤ ibs) (v : Value α α) (fx : Li
     (System.new fuel ibs sr v fx).Ok :=
   ⟨⟨rfl, Mixer.newV_clean v _ ibs⟩, hibs⟩
 
-theorem withMixer_ok (s : System α n) (f : Mixer α (SysSnd α) (SysFx α n) Unit → Mixer α (SysSnd α) (SysFx α n) Unit)
+theorem withMixer_ok (s : System α n) (f : Mixer α (SysSnd α) (SysFx α n) (SysSpatial α) → Mixer α (SysSnd α) (SysFx α n) (SysSpatial α))
     (hf : ∀ m, Mixer.Clean s.r.ibs m → Mixer.Clean s.r.ibs (f m)) (h : s.Ok) : (s.withMixer f).Ok :=
   ⟨⟨h.1.1, hf _ h.1.2⟩, h.2⟩
 
@@ -149,6 +149,19 @@ theorem addSubTrack_ok (s : System α n) (parent : Option Nat) (id : Nat) (v : V
   | some p =>
     exact withMixer_ok s _ (fun m hm => Mixer.mapTrack_clean _ p _
       (fun t ht => Trk.hAddSubTrack_clean _ _ t (Trk.buildV_clean ..) ht) m hm) h
+
+theorem addSpatialSubTrack_ok (s : System α n) (parent : Option Nat) (id : Nat) (sp : SysSpatial α) (v : Value α α)
+    (fx : List (SysFx α n)) (sends : List (Nat × Value α α)) (persist : Bool) (h : s.Ok) :
+    (s.addSpatialSubTrack parent id sp v fx sends persist).Ok := by
+  unfold System.addSpatialSubTrack
+  have hb : ∀ fx' : List (SysFx α n), Trk.Clean s.r.ibs (Trk.mapData (fun d => { d with spatial := some sp })
+      (Trk.buildV (S := SysSnd α) (P := SysSpatial α) id v fx' sends persist s.r.ibs)) :=
+    fun fx' => Trk.mapData_clean _ _ (fun _ => rfl) _ (Trk.buildV_clean id v fx' sends persist s.r.ibs)
+  cases parent with
+  | none => exact withMixer_ok s _ (fun m hm => Mixer.hAddSubTrack_clean _ _ (hb _) m hm) h
+  | some p =>
+    exact withMixer_ok s _ (fun m hm => Mixer.mapTrack_clean _ p _
+      (fun t ht => Trk.hAddSubTrack_clean _ _ t (hb _) ht) m hm) h
 
 theorem addSendTrack_ok (s : System α n) (id : Nat) (v : Value α α) (fx : List (SysFx α n)) (h : s.Ok) :
     (s.addSendTrack id v fx).Ok :=
@@ -176,7 +189,7 @@ theorem fxCommand_ok (s : System α n) (eid : Nat) (c : FxCmd α) (h : s.Ok) : (
   withMixer_ok s _ (fun m hm => Mixer.mapComps_clean _ _ _ m hm) h
 
 /-- a `TrackHandle` method: it edits the data of one track and leaves the scratch buffer alone -/
-theorem trackOp_ok (s : System α n) (id : Nat) (g : TrkData α (SysSnd α) (SysFx α n) Unit → TrkData α (SysSnd α) (SysFx α n) Unit)
+theorem trackOp_ok (s : System α n) (id : Nat) (g : TrkData α (SysSnd α) (SysFx α n) (SysSpatial α) → TrkData α (SysSnd α) (SysFx α n) (SysSpatial α))
     (hg : ∀ d, (g d).temp = d.temp) (h : s.Ok) : (s.withMixer (Mixer.mapTrack id (Trk.mapData g))).Ok :=
   withMixer_ok s _ (fun m hm => Mixer.mapTrack_clean _ id _ (fun t ht => Trk.mapData_clean _ g hg t ht) m hm) h
 
